@@ -12,20 +12,20 @@ import (
 func init() {
 	register(Property{ID: "C16", Level: "other", Run: runC16,
 		Technique: "static analysis: who-may-store on path.source / Stream.subStream, must-pass-through path conditions on doAddPublisher and SubStream.WriteUnit, acquire/rollback pairing walk after setAvailable (go/ssa)",
-		Text: "Decides the structural skeleton of 'one publisher, replaced publishers are cut off': path.source is written only by doAddPublisher (req.Author), executeRemovePublisher (nil) and run (static/redirect source); in doAddPublisher the store is reached only if source == nil or overridePublisher with the previous publisher Close()d and executeRemovePublisher()ed first, and only for source 'publisher'; every call of executeRemovePublisher in the module (the only place that clears the source) is either the answer to a remove request of the current source itself (source == req.Author) or preceded by Close() of the detached publisher, so no live publisher is detached silently; after a successful setAvailable every error reply of doAddPublisher/doSourceStaticSetReady is preceded by setNotAvailable (rollback); SubStream.WriteUnit forwards a unit only under Stream.mutex.RLock and only while Stream.subStream == ss; Stream.subStream is stored only in SubStream.Initialize under the write lock. It does not decide interleavings of a replaced publisher's in-flight writes beyond that guard.",
-		Note: "trusted: go/ssa CFG; the path fields are owned by the path goroutine (single writer), which C40's channel rules support"})
+		Text:      "Decides the structural skeleton of 'one publisher, replaced publishers are cut off': path.source is written only by doAddPublisher (req.Author), executeRemovePublisher (nil) and run (static/redirect source); in doAddPublisher the store is reached only if source == nil or overridePublisher with the previous publisher Close()d and executeRemovePublisher()ed first, and only for source 'publisher'; every call of executeRemovePublisher in the module (the only place that clears the source) is either the answer to a remove request of the current source itself (source == req.Author) or preceded by Close() of the detached publisher, so no live publisher is detached silently; after a successful setAvailable every error reply of doAddPublisher/doSourceStaticSetReady is preceded by setNotAvailable (rollback); SubStream.WriteUnit forwards a unit only under Stream.mutex.RLock and only while Stream.subStream == ss; Stream.subStream is stored only in SubStream.Initialize under the write lock. It does not decide interleavings of a replaced publisher's in-flight writes beyond that guard.",
+		Note:      "trusted: go/ssa CFG; the path fields are owned by the path goroutine (single writer), which C40's channel rules support"})
 	register(Property{ID: "C18", Level: "other", Run: runC18,
 		Technique: "static analysis: who-may-write on path.readers / path.stream, must-pass-through path conditions on addReaderPost and setNotAvailable (go/ssa)",
-		Text: "path.readers is written only in initialize (make), addReaderPost (insert) and executeRemoveReader (delete); the insert is reached only with the author absent and not(maxReaders != 0 and len(readers) >= maxReaders); setNotAvailable removes and Close()s every reader on every path before it returns; path.stream is cleared only by setNotAvailable and set only by setAvailable. This is the counting and teardown skeleton; it does not decide reader behaviour after Close().",
-		Note: "trusted: single-goroutine ownership of path fields"})
+		Text:      "path.readers is written only in initialize (make), addReaderPost (insert) and executeRemoveReader (delete); the insert is reached only with the author absent and not(maxReaders != 0 and len(readers) >= maxReaders); setNotAvailable removes and Close()s every reader on every path before it returns; path.stream is cleared only by setNotAvailable and set only by setAvailable. This is the counting and teardown skeleton; it does not decide reader behaviour after Close().",
+		Note:      "trusted: single-goroutine ownership of path fields"})
 	register(Property{ID: "C19", Level: "other", Run: runC19,
 		Technique: "static analysis: exactly-once typestate over all CFG paths of the request handlers (answer | hold | answering call), drain rules on the on-hold lists, on-demand state-transition table (go/ssa)",
-		Text: "On every path of each path / path-manager request handler exactly one of {send on req.Res, close(req.Res), append to an on-hold list, call of an answering function} happens; the on-hold lists are appended to only by doDescribe/doAddReader; every `list = nil` is preceded by a loop answering every element, the drain sites are exactly source ready / publisher added (consumeOnHoldRequests), both start-timeout timers, and the teardown of run answers both lists; requesters receive from req.Res after a successful send on an unbuffered channel created by the wrapper; stores to the on-demand state fields form exactly the documented transition table and Start is called only from state initial; inside a handler no onDemand*ScheduleClose (arming of the close timer) follows a call that attaches readers (consumeOnHoldRequests / addReaderPost) unless len(readers) == 0 was re-tested, and the two on-ready handlers arm it before their success reply when the source arrived on demand. Interleavings with timer expiry are not decided.",
-		Note: "trusted: Go channel semantics; single-goroutine ownership of path fields"})
+		Text:      "On every path of each path / path-manager request handler exactly one of {send on req.Res, close(req.Res), append to an on-hold list, call of an answering function} happens; the on-hold lists are appended to only by doDescribe/doAddReader; every `list = nil` is preceded by a loop answering every element, the drain sites are exactly source ready / publisher added (consumeOnHoldRequests), both start-timeout timers, and the teardown of run answers both lists; requesters receive from req.Res after a successful send on an unbuffered channel created by the wrapper; stores to the on-demand state fields form exactly the documented transition table and Start is called only from state initial; inside a handler no onDemand*ScheduleClose (arming of the close timer) follows a call that attaches readers (consumeOnHoldRequests / addReaderPost) unless len(readers) == 0 was re-tested, and the two on-ready handlers arm it before their success reply when the source arrived on demand. Interleavings with timer expiry are not decided.",
+		Note:      "trusted: Go channel semantics; single-goroutine ownership of path fields"})
 	register(Property{ID: "C20", Level: "other", Run: runC20,
 		Technique: "static analysis: per-holder pairing idioms for the closures returned by hooks.On* (defer / nil-guarded field / resource-paired field), who-may-store and who-may-call on holder fields, guarded-caller tables (go/ssa)",
-		Text: "Every closure returned by hooks.On* (13 sites) is held by one of three idioms, and each idiom is checked: locals are deferred or called on every path to return; path.onOfflineHook is stored only in setOnline after setOffline and called only nil-guarded in setOffline followed by = nil; path.onUnDemandHook is stored only in onDemandPublisherStart (entered only from state initial), called and cleared only in onDemandPublisherStop and the run teardown; path.onUnavailableHook is stored only in setAvailable after the stream initialised and called only in setNotAvailable, whose callers are each dominated by a literal implying the stream is held (frozen table) and which clears the stream on all paths; after a successful setAvailable every error exit rolls back; server-side field holders (rtsp conn/session, hls session) are stored and called only in their paired functions under the paired state literal. This decides that every transition function preserves 'hook open <=> resource held', not alternation over arbitrary lifecycles.",
-		Note: "trusted: gortsplib session state machine (PrePlay->Play), hooks constructors launch the start command and return the closing closure"})
+		Text:      "Every closure returned by hooks.On* (13 sites) is held by one of three idioms, and each idiom is checked: locals are deferred or called on every path to return; path.onOfflineHook is stored only in setOnline after setOffline and called only nil-guarded in setOffline followed by = nil; path.onUnDemandHook is stored only in onDemandPublisherStart (entered only from state initial), called and cleared only in onDemandPublisherStop and the run teardown; path.onUnavailableHook is stored only in setAvailable after the stream initialised and called only in setNotAvailable, whose callers are each dominated by a literal implying the stream is held (frozen table) and which clears the stream on all paths; after a successful setAvailable every error exit rolls back; server-side field holders (rtsp conn/session, hls session) are stored and called only in their paired functions under the paired state literal. This decides that every transition function preserves 'hook open <=> resource held', not alternation over arbitrary lifecycles.",
+		Note:      "trusted: gortsplib session state machine (PrePlay->Play), hooks constructors launch the start command and return the closing closure"})
 	addMutants(
 		// C16
 		Mutant{"C16", "override-without-close", "internal/core/path.go",
@@ -609,7 +609,10 @@ func runC19(c *Ctx) {
 	}
 
 	// on-demand state machine
-	type tr struct{ fn string; val string }
+	type tr struct {
+		fn  string
+		val string
+	}
 	for _, kind := range []string{"Publisher", "StaticSource"} {
 		field := "onDemand" + kind + "State"
 		accepted := map[tr]string{
@@ -774,8 +777,8 @@ func runC20(c *Ctx) {
 	// ---- generic field-holder table
 	type holder struct {
 		strct, field string
-		storeIn       map[string]string // function -> required literal ("" none); prefix "!" = negative literal
-		callIn        map[string]string
+		storeIn      map[string]string // function -> required literal ("" none); prefix "!" = negative literal
+		callIn       map[string]string
 	}
 	const rtspSess = "(*internal/servers/rtsp.session)."
 	const stAtom = "((*github.com/bluenviron/gortsplib/v5.ServerSession).State($0.rsession) == "
@@ -965,7 +968,7 @@ func runC20(c *Ctx) {
 
 	// ---- hook constructors: start iff configured; closure stops it iff started, then launches the stop command iff configured
 	type hk struct{ fn, on, off string }
-	for _, h := range []hk{{"OnAvailable", "RunOnAvailable", "RunOnUnavailable"},{"OnOnline", "RunOnOnline", "RunOnOffline"}, {"OnDemand", "RunOnDemand", "RunOnUnDemand"}, {"OnRead", "RunOnRead", "RunOnUnread"}} {
+	for _, h := range []hk{{"OnAvailable", "RunOnAvailable", "RunOnUnavailable"}, {"OnOnline", "RunOnOnline", "RunOnOffline"}, {"OnDemand", "RunOnDemand", "RunOnUnDemand"}, {"OnRead", "RunOnRead", "RunOnUnread"}} {
 		fn := c.fn(p, "internal/hooks", "", h.fn)
 		if fn == nil {
 			continue
